@@ -47,9 +47,11 @@ type Case struct {
 	// plus every non-competing parameter); Repeat = serve the request this
 	// many times (query parameters are applied in map order); Extra = class
 	// of the non-competing parameters.
-	Whole  bool   `json:"whole,omitempty"`
-	Repeat int    `json:"repeat,omitempty"`
-	Extra  string `json:"extra,omitempty"`
+	// c07-ws: the JSON text frames sent over the WebSocket connection.
+	Frames []string `json:"frames,omitempty"`
+	Whole  bool     `json:"whole,omitempty"`
+	Repeat int      `json:"repeat,omitempty"`
+	Extra  string   `json:"extra,omitempty"`
 	// Reply: wire bytes (type Rule.Out) of the handler's reply (c04).
 	Reply     []byte `json:"reply,omitempty"`
 	ReplyJSON string `json:"reply_json,omitempty"`
@@ -708,9 +710,9 @@ func RunC03(r *mon.Run) {
 		return envs["dyn|"+c.Mux]
 	}
 	all := append(append([]RuleSpec(nil), dyn...), real...)
-	nMulti := r.Pick(150, 6000)
-	nMut := r.Pick(6, 200)
-	for _, rule := range all {
+	nMulti := r.Pick(100, 6000)
+	nMut := r.Pick(4, 200)
+	for ri, rule := range all {
 		p, err := newPlan(rule)
 		if err != nil {
 			r.Inconclusive("harness: " + err.Error())
@@ -740,6 +742,9 @@ func RunC03(r *mon.Run) {
 				n = len(pathStrVals)
 			}
 			for idx := 0; idx < n; idx++ {
+				if !r.Thorough() && (idx+ri)%2 == 1 && !p.isPathVar(lf.path()) {
+					continue // quick tier: every table entry on every other rule
+				}
 				run(g.single(p, lf, idx))
 			}
 			if r.Thorough() {
@@ -821,7 +826,10 @@ func RunC03(r *mon.Run) {
 					}
 					hs = append(hs, hostile{mutate(g.rng, ts[0]), "mutated"})
 				}
-				for _, h := range hs {
+				for hi, h := range hs {
+					if !r.Thorough() && (hi+ri)%2 == 1 {
+						continue // quick tier: every hostile text on every other rule
+					}
 					run(g.neg(p, lf, via, h))
 				}
 			}
@@ -837,6 +845,8 @@ func execCase(e *env, c *Case) outcome {
 		return execNeg(e, c)
 	case "c07":
 		return execC07(e, c)
+	case "c07-ws":
+		return execC07WS(e, c)
 	case "c04":
 		return execC04(e, c)
 	case "c04-seq":
